@@ -1,5 +1,7 @@
 import Ovsdb.Codec
 import Ovsdb.Model.WireEnc
+import Ovsdb.Model.Mapper
+import Ovsdb.CodecUpdates
 /-
   Lean.Json <-> Wire.J, and the canonical rendering of decoded values for the
   correspondence check of the wire decoders (C19, C12).
@@ -157,5 +159,40 @@ def recodeWireFn (j : Json) : P Json := do
   | "select" => return re (decodeMonitorSelect t) encodeMonitorSelect
   | "operation" => return outcomeToJson gOperationToJson (decodeOperation wireFuel t)
   | _ => throw s!"unknown wire kind {kind}"
+
+end Ovsdb
+
+/-! ### C09: mapper -/
+namespace Ovsdb
+open Lean Ovsdb.Wire Ovsdb.Mapper
+
+def exceptToJson {α} (f : α → Json) : Except String α → Json
+  | .ok v => Json.mkObj [("ok", f v)]
+  | .error e => Json.mkObj [("err", .str e)]
+
+/-- {table, model, base, fields (null | [col]), row (optional: use this OVS row instead of NewRow's)} -/
+def mapperFn (j : Json) : P Json := do
+  let (_, ts) ← tableSchemaOfJson (← jField j "table")
+  let base ← modelOfJson (← jField j "base")
+  let fields ← jOpt (jList jStr) ((j.getObjVal? "fields").toOption.getD .null)
+  let row : Except String OvsRow ← match jFieldOpt j "row" with
+    | some r => do pure (.ok (← ovsRowOfJson r))
+    | none => do
+      let m ← modelOfJson (← jField j "model")
+      pure (match fields with
+        | none => newRow ts m
+        | some fs => newRowFields ts m fs)
+  match row with
+  | .error e => return Json.mkObj [("row", exceptToJson ovsRowToJson (.error e))]
+  | .ok r =>
+    let wired := if (jFieldOpt j "row").isSome then r else wireRow r
+    let back := getRowData ts wired base
+    let muuid ← match jFieldOpt j "model" with
+      | some mj => do pure (← modelOfJson mj).uuid
+      | none => pure base.uuid
+    let created := createModel ts wired muuid
+    return Json.mkObj [("row", exceptToJson ovsRowToJson (.ok r)),
+      ("json", jToJson (encodeRow validUUIDText (toWRow r))),
+      ("back", exceptToJson modelToJson back), ("created", exceptToJson modelToJson created)]
 
 end Ovsdb
